@@ -755,6 +755,7 @@ def shadow_classification(p: dict, kind: str, seen: str, inp: dict, code: str, s
         "use_kind": p["use_kind"],
         "observed_at": p["observed_at"],
         "effect": p["effect"],
+        "dict_key_only": bool(p.get("dict_key_only", False)),
         "kind": kind,
         "seen": seen,
         "alias_pass": p["name"].endswith("_aliased") or f"{p['name']} as {p['name']}_aliased" in code,
